@@ -278,8 +278,25 @@ fn run_seq(path: &str, seed: u64, n_ops: u64) {
                 let r2 = rng.below(100);
                 if r2 < 10 {
                     // commit
-                    ev(&mut tw, &mut h, json!({"a": "CommitUpdateCurrent", "w": "w1"}));
-                    ev(&mut tw, &mut h, json!({"a": "CommitPushVersion", "w": "w1"}));
+                    if kind == "U" && rng.chance(1, 2) {
+                        // the documented end of an update: Finished(soa) = SOA + commit + close
+                        let sx = 1 + rng.below(3);
+                        let res = h.apply(&json!({"a": "U_Finished", "w": "w1", "x": sx}));
+                        if !res.is_null() {
+                            eprintln!("Finished failed: {}", res);
+                            std::process::exit(2);
+                        }
+                        pending.retain(|r| r.1 != "SOA");
+                        pending.insert((vec![], "SOA".into(), sx));
+                        tw.event(json!({"a": "U_Soa", "w": "w1", "x": sx}));
+                        tw.event(json!({"a": "CommitUpdateCurrent", "w": "w1"}));
+                        tw.event(json!({"a": "CommitPushVersion", "w": "w1"}));
+                        tw.event(json!({"a": "DropWriter", "w": "w1"}));
+                        session = None;
+                    } else {
+                        ev(&mut tw, &mut h, json!({"a": "CommitUpdateCurrent", "w": "w1"}));
+                        ev(&mut tw, &mut h, json!({"a": "CommitPushVersion", "w": "w1"}));
+                    }
                     committed = pending.clone();
                     sp_committed = sp_pending.clone();
                     version += 1;
